@@ -181,9 +181,29 @@ func randCall(r *Rand, h handles, tags map[string]int) callT {
 			return h.Root
 		}
 	}
+	// client-chosen numbers: mostly small, 30% boundary values of the 32/64-bit fields
+	n64 := func(small int) uint64 {
+		if r.Chance(30) {
+			tags["edge_number"]++
+			return PickU64(r, 0, 1, 1<<31-1, 1<<31, 1<<32-1, 1<<32, 1<<62, 1<<63-1, 1<<63, 1<<63+1, 1<<64-2, 1<<64-1)
+		}
+		return uint64(r.Intn(small))
+	}
+	n32 := func(vals ...int) uint32 {
+		if r.Chance(30) {
+			tags["edge_number"]++
+			return uint32(PickU64(r, 0, 1, 3, 1<<16, 1<<20, 1<<31-1, 1<<31, 1<<32-1))
+		}
+		return uint32(PickInt(r, vals...))
+	}
 	switch x := r.Intn(100); {
-	case x < 12:
+	case x < 10:
 		c.proc, c.desc = 0, "NFS.NULL"
+	case x < 11:
+		c.proc, c.args, c.desc = 21, cat(fhArg(fh()), be64(n64(40)), be32(n32(0, 16, 4096))), "NFS.COMMIT"
+	case x < 12:
+		// SETATTR of the size only (sattr3: mode, uid, gid absent; size present; times DONT_CHANGE; no guard)
+		c.proc, c.args, c.desc = 2, cat(fhArg(h.File), be32(0), be32(0), be32(0), be32(1), be64(n64(64)), be32(0), be32(0), be32(0)), "NFS.SETATTR"
 	case x < 26:
 		c.proc, c.args, c.desc = 1, fhArg(fh()), "NFS.GETATTR"
 	case x < 40:
@@ -191,11 +211,11 @@ func randCall(r *Rand, h handles, tags map[string]int) callT {
 	case x < 46:
 		c.proc, c.args, c.desc = 4, cat(fhArg(fh()), be32(uint32(r.Intn(64)))), "NFS.ACCESS"
 	case x < 50:
-		c.proc, c.args, c.desc = 6, cat(fhArg(fh()), be64(uint64(r.Intn(40))), be32(uint32(PickInt(r, 0, 1, 16, 4096)))), "NFS.READ"
+		c.proc, c.args, c.desc = 6, cat(fhArg(fh()), be64(n64(40)), be32(n32(0, 1, 16, 4096))), "NFS.READ"
 	case x < 54:
-		c.proc, c.args, c.desc = 16, cat(fhArg(fh()), be64(0), make([]byte, 8), be32(uint32(PickInt(r, 0, 64, 512, 4096)))), "NFS.READDIR"
+		c.proc, c.args, c.desc = 16, cat(fhArg(fh()), be64(n64(3)), make([]byte, 8), be32(n32(0, 64, 512, 4096))), "NFS.READDIR"
 	case x < 57:
-		c.proc, c.args, c.desc = 17, cat(fhArg(fh()), be64(0), make([]byte, 8), be32(512), be32(uint32(PickInt(r, 64, 2048)))), "NFS.READDIRPLUS"
+		c.proc, c.args, c.desc = 17, cat(fhArg(fh()), be64(n64(3)), make([]byte, 8), be32(n32(512)), be32(n32(64, 2048))), "NFS.READDIRPLUS"
 	case x < 63:
 		c.proc, c.args, c.desc = uint32(PickInt(r, 18, 19, 20)), fhArg(fh()), "NFS.FSSTAT/FSINFO/PATHCONF"
 	case x < 66:
@@ -213,7 +233,7 @@ func randCall(r *Rand, h handles, tags map[string]int) callT {
 			c.proc, c.args, c.desc = 13, cat(fhArg(h.Root), opaque([]byte(fmt.Sprintf("d%d", r.Intn(6))))), "NFS.RMDIR"
 		}
 	case x < 73:
-		c.proc, c.args, c.desc = 7, cat(fhArg(h.File), be64(uint64(r.Intn(8))), be32(4), be32(uint32(r.Intn(3))), opaque([]byte("data"))), "NFS.WRITE"
+		c.proc, c.args, c.desc = 7, cat(fhArg(h.File), be64(n64(8)), be32(n32(4)), be32(uint32(r.Intn(3))), opaque([]byte("data"))), "NFS.WRITE"
 	case x < 80:
 		c.prog, c.vers, c.proc, c.args, c.desc = progMount, 3, 1, opaque([]byte(PickStr(r, "/", "/dir", "/nope", "relative", ""))), "MOUNT.MNT"
 	case x < 85:
